@@ -6,11 +6,11 @@ policy updates and usage reads with a non-decreasing clock:
   C28_aligned_window       every slot-aligned window of the configured length holds <= limit
   C28_any_window_twice     any window of the configured length holds <= 2*limit (exact: the
                            bound is reached, C28_any_window_refuted)
-  C28_quota_open_period    strictly inside every clock hour / UTC day <= quota
-  C28_quota_period_guarded whole clock hour / day when nothing was admitted at the exact
-                           boundary instant (C28_quota_hour_refuted / _day_refuted otherwise)
-  C28_reject_consumes_no_quota, C28_quota_only_after_rate_allowed, C28_limit_update_next_request
-  C28_delete_resets_refuted  DeletePolicy forgets the usage counted so far
+  C28_quota_period         every whole clock hour / UTC day holds <= quota (boundary instant
+                           included; C28_strict_after_exceeds_quota = necessity of !now.Before)
+  C28_reject_consumes_no_quota, C28_quota_only_after_rate_allowed, C28_limit_update_next_request,
+  C28_delete_applies_defaults_next_request
+Histories include DeletePolicy (fall back to the defaults, counts kept).
 Tie 1 (translator): geometry of the two newSlidingWindowCounter call sites, order of the
 governance calls in the query handler, lock discipline of the counter methods are re-extracted
 from the current source into coq/gen/Params_Govern.v; Obligations.v is re-checked by coqc.
@@ -31,12 +31,11 @@ AREA = "Govern"
 P = "Arc.Govern.Props"
 O = "Arc.Govern.Obligations"
 THEOREMS = [(P, "C28_aligned_window"), (P, "C28_any_window_twice"), (P, "C28_any_window_refuted"),
-            (P, "C28_quota_open_period"), (P, "C28_quota_period_guarded"),
-            (P, "C28_quota_hour_refuted"), (P, "C28_quota_day_refuted"),
+            (P, "C28_quota_period"), (P, "C28_strict_after_exceeds_quota"),
             (P, "C28_reject_consumes_no_quota"), (P, "C28_quota_only_after_rate_allowed"),
-            (P, "C28_limit_update_next_request"), (P, "C28_delete_resets_refuted"),
+            (P, "C28_limit_update_next_request"), (P, "C28_delete_applies_defaults_next_request"),
             (P, "C28_counter_aligned_window"), (P, "C28_counter_any_window_twice"),
-            (P, "C28_counter_limit_update"), (P, "C28_tracker_open_period"),
+            (P, "C28_counter_decision_spec"), (P, "C28_counter_limit_update"), (P, "C28_tracker_period"),
             (O, "C28_geometry"), (O, "C28_call_sites"),
             (O, "C28_deployed_minute_window"), (O, "C28_deployed_hour_window"),
             (O, "C28_deployed_any_window_twice")]
@@ -197,8 +196,11 @@ def gen_sw(rng, i):
     t0 = base + rng.choice([0, 0, d - 1, rng.randrange(0, d), -1, -d])
     ops, t = [], t0
     unsorted = rng.random() < 0.06
+    idle_burst = (not unsorted) and rng.random() < 0.3
+    nops = rng.randint(6, 28)
+    idle_at = {rng.randrange(nops), rng.randrange(nops)}
     # a burst phase that fills the window, then probes around the window edge
-    for k in range(rng.randint(6, 28)):
+    for k in range(nops):
         r = rng.random()
         if r < 0.72:
             ops.append({"k": "a", "t": t})
@@ -210,6 +212,14 @@ def gen_sw(rng, i):
             t += rng.choice(steps_for(rng, d, nn))
         if unsorted and rng.random() < 0.2:
             t -= rng.choice([1, d, 3 * d, nn * d])
+        if idle_burst and k in idle_at:
+            # the counter sits idle for at least one full window, then bursts arrive in
+            # consecutive slots (the whole-ring expiry path of advance(), then normal rotation)
+            t += rng.choice([nn * d, nn * d + 1, nn * d + d, 2 * nn * d, 7 * nn * d + 3])
+            for j in range(rng.randint(1, 3)):
+                ops += [{"k": "a", "t": t}] * (max(lim, 1) + rng.randint(1, 2))
+                ops.append({"k": "p", "t": t})
+                t += rng.choice([0, 1, d, d, 2 * d])
     return {"w": w, "n": n, "lim": lim, "t0": t0, "ops": ops}
 
 
@@ -220,7 +230,7 @@ def gen_qt(rng, i):
     t0 = base + rng.choice([-1, 0, 1, -HOUR + 1, rng.randrange(0, HOUR), -rng.randrange(1, HOUR)])
     ops, t = [], t0
     unsorted = rng.random() < 0.05
-    for k in range(rng.randint(4, 22)):
+    for k in range(rng.randint(4, 16)):
         r = rng.random()
         if r < 0.74:
             ops.append({"k": "a", "t": t})
@@ -239,8 +249,10 @@ def gen_qt(rng, i):
     return {"mh": mh, "md": md, "t0": t0, "ops": ops}
 
 
-def rnd_policy(rng, allow_zero):
+def rnd_policy(rng, allow_zero, minute_only=False):
     z = [0] if allow_zero else []
+    if minute_only:      # only the per-minute limiter is active: its decisions are fully specified
+        return {"min": rng.choice([1, 2, 2, 3, 4]), "hr": 0, "qh": rng.choice([0, 3, 6]), "qd": rng.choice([0, 9])}
     return {"min": rng.choice([1, 2, 2, 3, 4] + z), "hr": rng.choice([0, 0, 3, 5, 8] if allow_zero else [3, 5, 8, 0]),
             "qh": rng.choice([2, 3, 4, 6] + z + z), "qd": rng.choice([0, 4, 6, 9])}
 
@@ -249,7 +261,14 @@ def gen_mgr(rng, i, prm):
     dm, nm = geom(prm["minute_w"], prm["minute_n"])
     dh, nh = geom(prm["hour_w"], prm["hour_n"])
     allow_zero = rng.random() < 0.25
-    dflt = rng.choice([{"min": 0, "hr": 0, "qh": 0, "qd": 0}, rnd_policy(rng, allow_zero), rnd_policy(rng, allow_zero)])
+    minute_only = rng.random() < 0.3
+    if minute_only:
+        _rp = rnd_policy
+        rnd_pol = lambda r, z: _rp(r, z, True)
+        dflt = rnd_pol(rng, allow_zero)
+    else:
+        rnd_pol = rnd_policy
+        dflt = rng.choice([{"min": 0, "hr": 0, "qh": 0, "qd": 0}, rnd_policy(rng, allow_zero), rnd_policy(rng, allow_zero)])
     toks = [1] if rng.random() < 0.6 else [1, 2]
     with_del = rng.random() < 0.15
     with_burst = rng.random() < 0.12
@@ -257,10 +276,23 @@ def gen_mgr(rng, i, prm):
     base = rng.choice(BASES)
     t = base + rng.choice([0, dm - 1, -1, rng.randrange(0, dm), -rng.randrange(1, HOUR)])
     items, rid, pending = [], 0, []
-    if rng.random() < 0.7:
+    # the token is first served under the config defaults (trackers exist), THEN gets its policy
+    late_create = rng.random() < 0.2
+    if late_create:
+        if max(dflt["min"], dflt["qh"]) <= 0:
+            dflt = rnd_pol(rng, False)
+        for tk in toks:
+            for j in range(rng.randint(1, 4)):
+                rid += 1
+                items += [{"k": "rate", "tok": tk, "rid": rid, "t": t}, {"k": "quota", "tok": tk, "rid": rid, "t": t}]
+            items.append({"k": "set", "tok": tk, "p": rnd_pol(rng, False)})
+            for j in range(rng.randint(2, 5)):
+                rid += 1
+                items += [{"k": "rate", "tok": tk, "rid": rid, "t": t}, {"k": "quota", "tok": tk, "rid": rid, "t": t}]
+    elif rng.random() < 0.7:
         for tk in toks:
             if rng.random() < 0.8:
-                items.append({"k": "set", "tok": tk, "p": rnd_policy(rng, allow_zero)})
+                items.append({"k": "set", "tok": tk, "p": rnd_pol(rng, allow_zero)})
     for k in range(rng.randint(6, 30)):
         tk = rng.choice(toks)
         r = rng.random()
@@ -275,7 +307,7 @@ def gen_mgr(rng, i, prm):
             tk2, r2 = pending.pop(rng.randrange(len(pending)))
             items.append({"k": "quota", "tok": tk2, "rid": r2, "t": t})
         elif r < 0.80:
-            items.append({"k": "set", "tok": tk, "p": rnd_policy(rng, allow_zero)})
+            items.append({"k": "set", "tok": tk, "p": rnd_pol(rng, allow_zero)})
         elif r < 0.88:
             items.append({"k": "usage", "tok": tk, "t": t})
         elif r < 0.92 and with_del:
@@ -288,13 +320,23 @@ def gen_mgr(rng, i, prm):
             t = rng.choice([t + x for x in steps_for(rng, dm, nm)] + [t + dh, t + nh * dh, t + nh * dh - 1, nxt_h, nxt_h, nxt_h - 1, nxt_h + 1, nxt_d, nxt_d + 1])
         if unsorted and rng.random() < 0.2:
             t -= rng.choice([1, dm, 61 * S])
+        if (not unsorted) and rng.random() < 0.04:
+            # idle for at least one full minute window, then a burst in consecutive slots
+            t += rng.choice([nm * dm, nm * dm + 1, 2 * nm * dm, nh * dh + 5])
+            tk = rng.choice(toks)
+            for j in range(rng.randint(1, 2)):
+                for q in range(rng.randint(3, 6)):
+                    rid += 1
+                    items += [{"k": "rate", "tok": tk, "rid": rid, "t": t}, {"k": "quota", "tok": tk, "rid": rid, "t": t}]
+                t += rng.choice([1, dm, 2 * dm])
     for tk2, r2 in pending:
         items.append({"k": "quota", "tok": tk2, "rid": r2, "t": t})
     return {"def": dflt, "items": items}
 
 
 def witness_cases(prm):
-    """Refutation witnesses of Props.v on the deployed geometry (run first)."""
+    """Refutation witness of C28_any_window_refuted and the regression inputs of the two repaired
+    defects (boundary-instant quota, DeletePolicy) on the deployed geometry (run first)."""
     dm, nm = geom(prm["minute_w"], prm["minute_n"])
     B = BASES[1]
     sw = [{"w": prm["minute_w"], "n": prm["minute_n"], "lim": 3, "t0": B,
@@ -409,25 +451,36 @@ def mgr_term(c, prm):
 
 
 HEADER = "From Coq Require Import List ZArith NArith.\nFrom Arc Require Import Govern.Model.\nImport ListNotations.\n"
-SW_PREDS = {"agree": "swcase_agrees", "sorted": "swcase_sorted", "aligned": "swcase_oracle_aligned",
+SW_PREDS = {"agree": "swcase_agrees", "sorted": "swcase_sorted", "aligned": "swcase_oracle_aligned", "decisions": "swcase_oracle_decisions",
             "any": "swcase_oracle_any", "twice": "swcase_oracle_twice"}
 QT_PREDS = {"agree": "qtcase_agrees", "sorted": "qtcase_sorted", "open": "qtcase_oracle_open", "strict": "qtcase_oracle_strict"}
-MG_PREDS = {"agree": "mcase_agrees", "sorted": "mcase_sorted", "guarded": "mcase_oracle_guarded", "strict": "mcase_oracle_strict",
-            "strict_nodel": "mcase_strict_nodel", "strict_window": "mcase_strict_window", "strict_quota": "mcase_strict_quota"}
+MG_PREDS = {"agree": "mcase_agrees", "sorted": "mcase_sorted", "guarded": "mcase_oracle_guarded", "strict": "mcase_oracle_strict"}
 
 
-def evaluate(sw, qt, mg, prm, name):
-    """-> three dicts {pred: set(indices where the predicate is FALSE)}"""
-    r = []
+def evaluate(sw, qt, mg, prm, name, per_file=60):
+    """-> three dicts {pred: set(indices where the predicate is FALSE)}.  The case files are
+    compiled by several coqc processes in parallel (parsing the numerals dominates)."""
+    from concurrent.futures import ThreadPoolExecutor
+    jobs = []
     for terms, typ, preds, nm in (([sw_term(c) for c in sw], "swcase", SW_PREDS, "sw"),
                                   ([qt_term(c) for c in qt], "qtcase", QT_PREDS, "qt"),
                                   ([mgr_term(c, prm) for c in mg], "mcase", MG_PREDS, "mg")):
-        if terms:
-            d = vlib.coq_check_cases("C28", HEADER, typ, terms, preds, chunk=600, name="%s_%s" % (name, nm))
-        else:
-            d = {k: [] for k in preds}
-        r.append({k: set(v) for k, v in d.items()})
-    return r
+        for off in range(0, len(terms), per_file):
+            jobs.append((nm, off, typ, preds, terms[off:off + per_file]))
+
+    def one(job):
+        nm, off, typ, preds, part = job
+        # one small Definition per case: a single huge list literal is much slower to parse
+        hdr = HEADER + "".join("Definition k%d : %s := %s.\n" % (j, typ, t) for j, t in enumerate(part))
+        d = vlib.coq_check_cases("C28", hdr, typ, ["k%d" % j for j in range(len(part))], preds,
+                                 chunk=len(part) + 1, name="%s_%s_%d" % (name, nm, off))
+        return nm, off, d
+    out = {"sw": {k: set() for k in SW_PREDS}, "qt": {k: set() for k in QT_PREDS}, "mg": {k: set() for k in MG_PREDS}}
+    with ThreadPoolExecutor(max_workers=max(2, min(10, vlib.NCPU - 2))) as ex:
+        for nm, off, d in ex.map(one, jobs):
+            for k, v in d.items():
+                out[nm][k].update(off + x for x in v)
+    return [out["sw"], out["qt"], out["mg"]]
 
 
 def classify(kind, i, f):
@@ -438,22 +491,17 @@ def classify(kind, i, f):
     if i in f["sorted"]:
         return "unsorted", None               # clock went backwards: outside the theorems' domain
     if kind == "sw":
-        if i in f["aligned"] or i in f["twice"]:
+        if i in f["aligned"] or i in f["twice"] or i in f["decisions"]:
             return "guarded-fail", None
         return "ok", (SIG_WINDOW if i in f["any"] else None)
     if kind == "qt":
-        if i in f["open"]:
+        # whole clock hours / UTC days (boundary instant included) is what is proved
+        if i in f["open"] or i in f["strict"]:
             return "guarded-fail", None
-        return "ok", (SIG_BOUNDARY if i in f["strict"] else None)
+        return "ok", None
     if i in f["guarded"]:
         return "guarded-fail", None
-    if i not in f["strict"]:
-        return "ok", None
-    if i in f["strict_window"]:
-        return "ok", SIG_WINDOW
-    if i in f["strict_quota"]:
-        return "ok", SIG_BOUNDARY
-    return "ok", SIG_DELETE
+    return "ok", (SIG_WINDOW if i in f["strict"] else None)
 
 
 # ---------------------------------------------------------------------------------------
@@ -560,8 +608,6 @@ def warm():
 
 WHAT = {
     SIG_WINDOW: "the slotted window only bounds slot-aligned windows: a burst at the end of one slot and another one window later admits 2x the limit inside one window of the configured length (C28_any_window_refuted; bound C28_any_window_twice)",
-    SIG_BOUNDARY: "quotaTracker.maybeReset uses now.After(resetAt): a query admitted at the exact hour/day boundary instant is charged to the finished period, so the new clock hour / UTC day admits quota+1 (C28_quota_hour_refuted / C28_quota_day_refuted)",
-    SIG_DELETE: "Manager.DeletePolicy drops the token's limiters and quota tracker: the default limits restart with empty counters, so limit more requests are admitted inside the same window (C28_delete_resets_refuted)",
 }
 
 
@@ -584,7 +630,7 @@ def run(res, tier, seed):
         "Go int / time.Duration overflow not modelled (times < year 2262, counters unbounded Z); RetryAfterSec's value, MaxRows/MaxDuration and the SQLite policy store are not modelled",
     ]
 
-    nsw, nqt, nmg = (260, 200, 260) if tier == "quick" else (6000, 4000, 5000)
+    nsw, nqt, nmg = (320, 220, 300) if tier == "quick" else (5000, 3000, 4000)
     t1 = time.time()
     wsw, wqt, wmg = witness_cases(prm)
     corpus = []
@@ -655,11 +701,21 @@ def run(res, tier, seed):
     res.cov["samples"] = [sw[len(wsw)], qt[len(wqt)], mg[len(wmg) + 1] if len(mg) > len(wmg) + 1 else mg[-1]]
 
     # 1. model/implementation disagreement
+    F = {"sw": fsw, "qt": fqt, "mg": fmg}
+    C = {"sw": sw, "qt": qt, "mg": mg}
+
+    def oracle_bad(k, j, ff):
+        return classify(k, j, dict(ff, agree=set()))[0] == "guarded-fail"
     if disagree:
-        kind, i = disagree[0]
-        case = {"sw": sw, "qt": qt, "mg": mg}[kind][i]
-        small, f = shrink(kind, case, prm, lambda k, j, ff: j in ff["agree"])
-        guarded_bad = classify(kind, 0, dict(f, agree=set()))[0] == "guarded-fail"
+        # prefer a disagreeing case on which the implementation's own output breaks the property
+        both = [(k, i) for k, i in disagree if oracle_bad(k, i, F[k])]
+        if both:
+            kind, i = both[0]
+            small, f = shrink(kind, C[kind][i], prm, oracle_bad)
+        else:
+            kind, i = disagree[0]
+            small, f = shrink(kind, C[kind][i], prm, lambda k, j, ff: j in ff["agree"])
+        guarded_bad = oracle_bad(kind, 0, f)
         res.violation("model and implementation disagree on a %s history" % {"sw": "counter", "qt": "quota tracker", "mg": "manager"}[kind],
                       {"kind": "correspondence", "correspondence": TIE_NAME, "type": kind, "case": small,
                        "disagreeing_cases": len(disagree), "oracle_fails_on_impl": guarded_bad,
